@@ -127,7 +127,7 @@ theorem getSubtree_wf {dt : Data} {s r : Store} {name : Int} (h : s.getSubtree d
   exact subStore_wf hw hx
 
 theorem getSubtree_inv {dt : Data} {s r : Store} {root : Option Int} (h : s.getSubtree dt root = some r)
-    (hs : Inv s) : Inv r := by
+    (hs : Inv0 s) : Inv0 r := by
   cases root with
   | none => rw [getSubtree_none h]; exact hs
   | some name => exact getSubtree_wf h hs.1
